@@ -102,10 +102,13 @@ def run(R):
     # the same clauses in other build configurations (the property's "every build configuration"): the tree's own generators + gcc in a scratch
     # directory; selections with another, with a weaker, and with no default-capable method (seeded/C18c)
     import os, shutil, subprocess, cbuild
+    import re as re_
     from checks.common import PREFIXES as PFX
     ncfg = 0
     for name, sel in [("all-but-yescrypt", [m for m in PFX if m != "yescrypt"]), ("glibc-like", ["sha512crypt", "sha256crypt", "md5crypt", "descrypt"]),
-                      ("bcrypt-and-legacy", ["bcrypt", "md5crypt", "nt"]), ("no-default-capable", ["descrypt", "md5crypt", "sha256crypt"])]:
+                      ("bcrypt-and-legacy", ["bcrypt", "md5crypt", "nt"]), ("no-default-capable", ["descrypt", "md5crypt", "sha256crypt"]),
+                      # either DES method on its own still owns the two-character settings (seeded/C18g: bigcrypt unreachable without descrypt)
+                      ("bigcrypt-without-descrypt", ["bigcrypt", "sha512crypt"]), ("descrypt-without-bigcrypt", ["descrypt", "yescrypt"])]:
         d = os.path.join(R.scratch, "c18cfg_" + name); os.makedirs(d, exist_ok=True)
         he = "," + ",".join(sorted(sel)) + ","
         try:
@@ -123,6 +126,19 @@ def run(R):
         ncfg += 1
         if pref != want:
             bad.append((tag + "P", "crypt_preferred_method is %s; the strongest enabled default-capable method is %s" % (pref, want), pline)); 
+        # every enabled method's setting is recognised (OK or LEGACY, never INVALID), a disabled method's is INVALID - whatever else is enabled
+        from checks import settings as S_
+        for m_, st_ in S_.CANON.items():
+            on = m_ in sel or (m_ in ("descrypt", "bigcrypt") and ("descrypt" in sel or "bigcrypt" in sel))      # (checksalt looks at the tag only: C18_tag_only)
+            kl = ask(["K " + hx(st_)])[0]
+            if on and kl == "status=1": bad.append((tag + "K " + hx(st_), "crypt_checksalt returns INVALID for a setting of %s, which this configuration serves" % ("the DES family" if m_ in ("descrypt", "bigcrypt") else "the enabled method " + m_), kl))
+            if not on and kl != "status=1": bad.append((tag + "K " + hx(st_), "crypt_checksalt recognises a setting of the disabled method %s: %s" % (m_, kl), kl))
+        # the installed header's promise about crypt_gensalt (NULL, ...) is what the library does (seeded/C19g)
+        try:
+            mac = re_.search(r"#define\s+CRYPT_GENSALT_IMPLEMENTS_DEFAULT_PREFIX\s+(\d+)", open(os.path.join(d, "crypt.h")).read()).group(1)
+        except Exception: mac = None
+        if mac is not None and (mac == "1") != (pref not in (None, "NULL")):
+            bad.append((tag + "crypt.h", "crypt.h says CRYPT_GENSALT_IMPLEMENTS_DEFAULT_PREFIX %s but crypt_preferred_method is %s" % (mac, pref), pline))
         if pref and pref != "NULL":
             st = ask(["K " + pref])[0]
             if st != "status=0": bad.append((tag + "K " + pref, "the preferred method's prefix is not OK for crypt_checksalt in this configuration: " + st, st))
